@@ -246,16 +246,34 @@ type errEntry struct {
 	hasPath bool
 }
 
+// violation is one failed demand of clauses 1-4.
+type violation struct {
+	kind string // machine-readable class, see the call sites of bad()
+	path []any  // position the demand is about
+	key  string // response key concerned (key-missing / key-unselected / key-duplicate)
+	msg  string
+}
+
+func (v violation) String() string { return v.msg }
+
+func violText(vs []violation) string {
+	var out []string
+	for _, v := range vs {
+		out = append(out, v.msg)
+	}
+	return strings.Join(out, "\n  ")
+}
+
 type checker struct {
 	m     *model
-	viol  []string // violations of clauses 2-4
+	viol  []violation // violations of clauses 2-4
 	repl  []replacement
 	order bool // some object's key order differs from selection order (label only)
 }
 
-func (c *checker) bad(format string, a ...any) {
+func (c *checker) bad(kind string, path []any, key string, format string, a ...any) {
 	if len(c.viol) < 8 {
-		c.viol = append(c.viol, fmt.Sprintf(format, a...))
+		c.viol = append(c.viol, violation{kind: kind, path: path, key: key, msg: fmt.Sprintf(format, a...)})
 	}
 }
 
@@ -263,12 +281,12 @@ func (c *checker) bad(format string, a ...any) {
 func (c *checker) compare(t *gast.Type, sets []gast.SelectionSet, o, v *jv, x wctx) {
 	at := pathKey(x.path)
 	if o == nil {
-		c.bad("clause 2: selected response key missing in output at %s", at)
+		c.bad("key-missing", x.path[:len(x.path)-1], lastKey(x.path), "clause 2: selected response key missing in output at %s", at)
 		return
 	}
 	if o.k == jNull {
 		if t.NonNull {
-			c.bad("clause 2: null at non-null position %s", at)
+			c.bad("null-at-nonnull", x.path, "", "clause 2: null at non-null position %s", at)
 		}
 		if v.isNull() {
 			return // a null the subgraph delivered itself
@@ -277,20 +295,20 @@ func (c *checker) compare(t *gast.Type, sets []gast.SelectionSet, o, v *jv, x wc
 		return
 	}
 	if v.isNull() {
-		c.bad("clause 4: output has a value at %s where the subgraph delivered null/nothing: %s", at, clip(o.String()))
+		c.bad("value-invented", x.path, "", "clause 4: output has a value at %s where the subgraph delivered null/nothing: %s", at, clip(o.String()))
 		return
 	}
 	if t.Elem != nil {
 		if o.k != jArr {
-			c.bad("clause 2: %s rendered at list position %s", o.k, at)
+			c.bad("kind", x.path, "", "clause 2: %s rendered at list position %s", o.k, at)
 			return
 		}
 		if v.k != jArr {
-			c.bad("clause 4: list rendered at %s but the subgraph value is a %s", at, v.k)
+			c.bad("offender-rendered", x.path, "", "clause 4: list rendered at %s but the subgraph value is a %s", at, v.k)
 			return
 		}
 		if len(o.arr) != len(v.arr) {
-			c.bad("clause 4: list at %s has %d items, subgraph delivered %d", at, len(o.arr), len(v.arr))
+			c.bad("list-length", x.path, "", "clause 4: list at %s has %d items, subgraph delivered %d", at, len(o.arr), len(v.arr))
 			return
 		}
 		for i := range o.arr {
@@ -301,25 +319,25 @@ func (c *checker) compare(t *gast.Type, sets []gast.SelectionSet, o, v *jv, x wc
 	def := c.m.s.Types[t.NamedType]
 	if !def.IsCompositeType() {
 		if cl, what := classifyLeaf(def, o); cl == leafBad {
-			c.bad("clause 2: ill-typed value at %s (%s): %s", at, what, clip(o.String()))
+			c.bad("kind", x.path, "", "clause 2: ill-typed value at %s (%s): %s", at, what, clip(o.String()))
 			return
 		}
 		if !jsonEqual(o, v) {
-			c.bad("clause 3/4: value at %s differs from the subgraph value: out %s, subgraph %s", at, clip(o.String()), clip(v.String()))
+			c.bad("leaf-differs", x.path, "", "clause 3/4: value at %s differs from the subgraph value: out %s, subgraph %s", at, clip(o.String()), clip(v.String()))
 		}
 		return
 	}
 	if o.k != jObj {
-		c.bad("clause 2: %s rendered at object position %s", o.k, at)
+		c.bad("kind", x.path, "", "clause 2: %s rendered at object position %s", o.k, at)
 		return
 	}
 	if v.k != jObj {
-		c.bad("clause 4: object rendered at %s but the subgraph value is a %s", at, v.k)
+		c.bad("offender-rendered", x.path, "", "clause 4: object rendered at %s but the subgraph value is a %s", at, v.k)
 		return
 	}
 	rt, ok := c.m.runtimeType(def, v)
 	if !ok {
-		c.bad("clause 2: object rendered at abstract position %s although its runtime type is unknown (__typename %s)", at, typenameProblem(v))
+		c.bad("abstract-unknown-type-rendered", x.path, "", "clause 2: object rendered at abstract position %s although its runtime type is unknown (__typename %s)", at, typenameProblem(v))
 		return
 	}
 	fields := c.m.collect(sets, rt)
@@ -330,11 +348,11 @@ func (c *checker) compare(t *gast.Type, sets []gast.SelectionSet, o, v *jv, x wc
 	seen := map[string]bool{}
 	for _, k := range o.keys {
 		if seen[k] {
-			c.bad("clause 2: duplicate response key %q in object at %s", k, at)
+			c.bad("key-duplicate", x.path, k, "clause 2: duplicate response key %q in object at %s", k, at)
 		}
 		seen[k] = true
 		if !want[k] {
-			c.bad("clause 2: unselected key %q in object at %s (runtime type %s)", k, at, rt)
+			c.bad("key-unselected", x.path, k, "clause 2: unselected key %q in object at %s (runtime type %s)", k, at, rt)
 		}
 	}
 	if len(o.keys) == len(fields) {
@@ -349,7 +367,7 @@ func (c *checker) compare(t *gast.Type, sets []gast.SelectionSet, o, v *jv, x wc
 		ov := o.get(f.key)
 		if f.name == "__typename" && rt == c.m.rootName() {
 			if ov == nil || ov.k != jStr || ov.s != rt {
-				c.bad("clause 2: root __typename at %s/%s is not %q", at, f.key, rt)
+				c.bad("kind", x.path, f.key, "clause 2: root __typename at %s/%s is not %q", at, f.key, rt)
 			}
 			continue
 		}
@@ -367,7 +385,7 @@ func (c *checker) replaced(t *gast.Type, sets []gast.SelectionSet, v *jv, x wctx
 	var offs []offender
 	c.m.offenders(t, sets, v, x, &offs)
 	if len(offs) == 0 {
-		c.bad("clause 4: value at %s replaced by null although nothing at or below it is null-in-non-null or ill-typed (subgraph value %s)", at, clip(v.String()))
+		c.bad("replaced-without-offender", x.path, "", "clause 4: value at %s replaced by null although nothing at or below it is null-in-non-null or ill-typed (subgraph value %s)", at, clip(v.String()))
 		return
 	}
 	ok := false
@@ -378,9 +396,19 @@ func (c *checker) replaced(t *gast.Type, sets []gast.SelectionSet, v *jv, x wctx
 		}
 	}
 	if !ok {
-		c.bad("clause 4: %s was replaced by null, but every offender below it is a null/missing value whose nearest nullable ancestor is deeper: %v", at, offs)
+		c.bad("not-nearest-nullable", x.path, "", "clause 4: %s was replaced by null, but every offender below it is a null/missing value whose nearest nullable ancestor is deeper: %v", at, offs)
 	}
 	c.repl = append(c.repl, replacement{path: x.path, offs: offs})
+}
+
+func lastKey(p []any) string {
+	if len(p) == 0 {
+		return ""
+	}
+	if k, ok := p[len(p)-1].(string); ok {
+		return k
+	}
+	return ""
 }
 
 func clip(s string) string {
@@ -440,7 +468,7 @@ func envelope(out []byte) (root, data *jv, errs []errEntry, problem string) {
 
 // verdict of the whole check.
 type result struct {
-	viol       []string // clauses 1-4 and clause 3's "no errors"
+	viol       []violation // clauses 1-4 and clause 3's "no errors"
 	uncovered  []replacement
 	offs       []offender // all offenders of j (definite and tolerated)
 	repl       []replacement
@@ -459,19 +487,19 @@ func (m *model) check(j *jv, out []byte) result {
 
 	_, data, errs, problem := envelope(out)
 	if problem != "" {
-		res.viol = append(res.viol, problem+": "+clip(string(out)))
+		res.viol = append(res.viol, violation{kind: "envelope", msg: problem + ": " + clip(string(out))})
 		return res
 	}
 	res.errs = errs
 	c := &checker{m: m}
 	switch {
 	case data == nil:
-		res.viol = append(res.viol, "clause 1: no data entry: "+clip(string(out)))
+		res.viol = append(res.viol, violation{kind: "envelope", msg: "clause 1: no data entry: " + clip(string(out))})
 		return res
 	case data.k == jNull:
 		res.dataNull = true
 		if len(res.offs) == 0 {
-			c.bad("clause 4: data is null although the subgraph data has no offender")
+			c.bad("replaced-without-offender", nil, "", "clause 4: data is null although the subgraph data has no offender")
 		} else {
 			ok := false
 			for _, o := range res.offs {
@@ -480,7 +508,7 @@ func (m *model) check(j *jv, out []byte) result {
 				}
 			}
 			if !ok {
-				c.bad("clause 4: data is null, but every offender is a null/missing value with a nullable ancestor: %v", res.offs)
+				c.bad("not-nearest-nullable", nil, "", "clause 4: data is null, but every offender is a null/missing value with a nullable ancestor: %v", res.offs)
 			}
 			c.repl = append(c.repl, replacement{path: nil, offs: res.offs})
 		}
@@ -492,7 +520,7 @@ func (m *model) check(j *jv, out []byte) result {
 	res.repl = c.repl
 	res.orderDiff = c.order
 	if len(res.offs) == 0 && len(errs) > 0 {
-		res.viol = append(res.viol, fmt.Sprintf("clause 3: the subgraph data is well-typed but errors are reported: %q", errs[0].message))
+		res.viol = append(res.viol, violation{kind: "errors-on-well-typed", msg: fmt.Sprintf("clause 3: the subgraph data is well-typed but errors are reported: %q", errs[0].message)})
 	}
 	// clause 5
 	offPaths := map[string]bool{}
